@@ -1,5 +1,39 @@
 """Sidecar contracts for matchingproblems/solver/fileIO.py"""
 M = 'fileIO:'
+IMPORT_DEFS = {'NA': ([], 'instance_options[Instance_options.NUMAGENTS]'), 'TW': ([], 'instance_options[Instance_options.TWOPL]'),
+          'NS': ([], 'value(line_toks(0)[0])'), 'NP': ([], 'value(line_toks(0)[1])'), 'NL': ([], 'ite(NA() == 2, value(line_toks(0)[1]), value(line_toks(0)[2]))'),
+          'plain': (['i', 'q'], 'kind(line_toks(i)[q]) == 0'),
+          # which section line number i belongs to
+          'is_st': (['i'], '1 <= i and i <= NS()'), 'is_pr': (['i'], 'NS() + 1 <= i and i <= NS() + NP()'),
+          'is_le': (['i'], 'NA() == 3 and NS() + NP() + 1 <= i and i <= NS() + NP() + NL()'),
+          'bracketed_from': (['i', 'off'], 'forall(j, 0, len(line_toks(i)) - off, kind(line_toks(i)[j + off]) == spec_kind(line_ties(i), j, len(line_toks(i)) - off))'),
+          'clamp': (['x', 'hi'], 'ite(x < 0, 0, ite(x > hi, hi, x))'),
+          'n_st': (['k'], 'ite(k >= 1, clamp(k - 1, NS()), 0)'), 'n_pr': (['k'], 'ite(k >= 1, clamp(k - 1 - NS(), NP()), 0)'),
+          'n_le': (['k'], 'ite(NA() == 3, ite(k >= 1, clamp(k - 1 - NS() - NP(), NL()), 0), n_pr(k))'),
+          'pl': (['j'], 'NS() + 1 + j'), 'll': (['k'], 'NS() + NP() + 1 + k'),
+          # the second-side list of lecturer (hospital) number a, and who is on it
+          'off': ([], 'ite(NA() == 2, 3, 4)'), 'lecline': (['a'], 'ite(NA() == 2, NS() + a, NS() + NP() + a)'),
+          'listed': (['a', 'b'], 'exists(t, 0, len(line_toks(lecline(a))) - off(), value(line_toks(lecline(a))[t + off()]) == b)', 'opaque'),
+          'lect_of': (['pr'], 'ite(NA() == 2, pr, value(line_toks(NS() + pr)[3]))'),
+          # row i of the model is the list on student line i+1: one fresh pair per token, numbers and dense ranks as written
+          'pair_as_written': (['pr', 'i', 'c'], "pr != None and alloc(pr) and has(pr, 'studentID') and has(pr, 'projectID') and has(pr, 'student_index') and has(pr, 'project_index') and has(pr, 'rank_student')"
+                              " and pr.studentID == i + 1 and pr.student_index == i and pr.projectID == value(line_toks(i + 1)[c + 1]) and pr.project_index == pr.projectID - 1 and pr.rank_student >= 1"),
+          'row_as_written_of': (['M', 'i'], 'len(M.pairs[i]) == len(line_toks(i + 1)) - 1 and forall(c, 0, len(M.pairs[i]), pair_as_written(M.pairs[i][c], i, c))'
+                             ' and implies(len(M.pairs[i]) > 0, M.pairs[i][0].rank_student == 1)'
+                             ' and forall(c, 0, len(M.pairs[i]) - 1, M.pairs[i][c + 1].rank_student == M.pairs[i][c].rank_student + ite(line_ties(i + 1)[c] != 0, 0, 1))'),
+          'row_as_written': (['i'], 'row_as_written_of(model, i)'),
+          'lq_of': (['j'], 'value(line_toks(pl(j))[1])'), 'uq_of': (['j'], 'value(line_toks(pl(j))[2])')}
+IMPORT_REQUIRES = [('two-or-three-agent-types', 'NA() == 2 or NA() == 3'),
+              ('header-line', 'file_len() >= 1 and len(line_toks(0)) >= NA() and plain(0, 0) and plain(0, 1) and implies(NA() == 3, plain(0, 2)) and NS() >= 0 and NP() >= 0 and NL() >= 0'),
+              ('student-lines', 'forall(i, 1, NS() + 1, i < file_len() and len(line_toks(i)) >= 1 and bracketed_from(i, 1))'),
+              ('ranked-project-numbers-in-range', 'forall(i, 1, NS() + 1, forall(j, 1, len(line_toks(i)), 1 <= value(line_toks(i)[j]) and value(line_toks(i)[j]) <= NP(), line_toks(i)[j]), line_toks(i))'),
+              ('project-lines', 'forall(i, NS() + 1, NS() + NP() + 1, i < file_len() and len(line_toks(i)) >= NA() + 1 and plain(i, 1) and plain(i, 2) and implies(NA() == 3, plain(i, 3))'
+                                ' and implies(NA() == 2 and TW(), bracketed_from(i, 3)))'),
+              ('project-lecturer-numbers-in-range', 'implies(NA() == 3, forall(i, NS() + 1, NS() + NP() + 1, 1 <= value(line_toks(i)[3]) and value(line_toks(i)[3]) <= NL()))'),
+              # with second-side lists: whoever ranks a project is ranked by the lecturer (hospital) offering it (what C12 guarantees for generated files)
+              ('second-side-lists-rank-those-who-rank-them', 'implies(TW(), forall(i, 1, NS() + 1, forall(j, 1, len(line_toks(i)), listed(lect_of(value(line_toks(i)[j])), i), line_toks(i)[j]), line_toks(i)))'),
+              ('lecturer-lines', 'implies(NA() == 3, forall(i, NS() + NP() + 1, NS() + NP() + NL() + 1, i < file_len() and len(line_toks(i)) >= 4 and plain(i, 1) and plain(i, 2) and plain(i, 3)'
+                                 ' and implies(TW(), bracketed_from(i, 4))))')]
 CONTRACTS = {
  # ghost parameter `ties`: the tie decisions the text was written from (exists only in the specification)
  M + '_get_simple_pref_list_and_ranks': dict(
@@ -12,13 +46,13 @@ CONTRACTS = {
         'len(simp_pref_list) == _k', 'len(simp_ranks) == _k',
         'in_tie == (_k > 0 and _k < len(pref_list) and ties[_k-1] != 0)',
         'implies(_k > 0, rank == simp_ranks[_k-1] + ite(_k < len(pref_list) and ties[_k-1] != 0, 0, 1))',
-        'implies(_k == 0, rank == 1)', 'implies(_k > 0, simp_ranks[0] == 1)',
+        'implies(_k == 0, rank == 1)', 'implies(_k > 0, simp_ranks[0] == 1)', 'rank >= 1', 'forall(j, 0, _k, simp_ranks[j] >= 1)',
         'forall(j, 0, _k - 1, simp_ranks[j+1] == simp_ranks[j] + ite(ties[j] != 0, 0, 1))',
         'forall(j, 0, _k, simp_pref_list[j] == value(pref_list[j]))'])},
     returns=('tuple', ('list', 'int'), ('list', 'int')),
     ensures=[('lengths', 'len(result0) == len(pref_list) and len(result1) == len(pref_list)'),
              ('values', 'forall(j, 0, len(pref_list), result0[j] == value(pref_list[j]))'),
-             ('first-rank', 'implies(len(pref_list) > 0, result1[0] == 1)'),
+             ('first-rank', 'implies(len(pref_list) > 0, result1[0] == 1)'), ('ranks-positive', 'forall(j, 0, len(pref_list), result1[j] >= 1)'),
              ('rank-step', 'forall(j, 0, len(pref_list) - 1, result1[j+1] == result1[j] + ite(ties[j] != 0, 0, 1))')]),
 
  # one student's row of Pair objects: fresh objects, in list order, with the file's project numbers and dense ranks
@@ -47,6 +81,9 @@ CONTRACTS = {
              ('fresh-distinct-objects', 'distinct(result, len(result)) and forall(c, 0, len(result), result[c] != None and alloc(result[c]) and not old(alloc(result[c])))'),
              ('student-project-and-rank', "forall(c, 0, len(result), result[c].studentID == st_num and result[c].projectID == value(st_prefs[c]) and result[c].student_index == st_num - 1"
                                           " and result[c].project_index == value(st_prefs[c]) - 1)"),
+             ('attributes-set', "forall(c, 0, len(result), has(result[c], 'studentID') and has(result[c], 'projectID') and has(result[c], 'student_index') and has(result[c], 'project_index') and has(result[c], 'rank_student')"
+                                " and not has(result[c], 'lecturerID') and not has(result[c], 'rank_lecturer'))"),
+             ('ranks-positive', 'forall(c, 0, len(result), result[c].rank_student >= 1)'),
              ('ranks-are-dense-and-follow-the-ties', 'implies(len(result) > 0, result[0].rank_student == 1) and forall(c, 0, len(result) - 1, result[c+1].rank_student == result[c].rank_student + ite(ties[c] != 0, 0, 1))'),
              ('existing-objects-untouched', 'old_untouched()')]),
 
@@ -63,7 +100,7 @@ CONTRACTS = {
  # {(lecturer, student): rank} for one second-side list: every listed student once... with the dense rank of its tie group
  M + '_create_student_ranks': dict(
     params={'model': ('ext', 'model'), 'lec_prefs': ('list', 'tok'), 'lec_num': 'int'},
-    ghost={'ties': ('list', 'int')},
+    ghost={'ties': ('list', 'int')}, late_locals={'simp_lec_ranks': ('list', 'int')},
     call_ghost={'_get_simple_pref_list_and_ranks': {'ties': 'ties'}},
     requires=[('ties-cover', 'len(ties) >= len(lec_prefs)'),
               ('well-bracketed', 'forall(j, 0, len(lec_prefs), kind(lec_prefs[j]) == spec_kind(ties, j, len(lec_prefs)))')],
@@ -82,4 +119,56 @@ CONTRACTS = {
            1: dict(invariant=['forall(i, 0, _k0, forall(c, 0, len(model.pairs[i]), rl_ok(model.pairs[i][c])))', 'forall(c, 0, _k, rl_ok(model.pairs[_k0][c]))'])},
     modifies=['heap:rank_lecturer'],
     ensures=[('every-pair-gets-the-rank-of-its-student-on-its-lecturers-list', 'forall(i, 0, len(model.pairs), forall(c, 0, len(model.pairs[i]), rl_ok(model.pairs[i][c])))')]),
+
+ # ---- C10: the section logic of the reader.  The file is a list of lines; line i has tokens line_toks(i) (T7/T8: a colon ends a field and is
+ #      not part of a token).  Line 0 carries the counts; lines 1..NS the students; NS+1..NS+NP the projects (hospitals); with three agent
+ #      types NS+NP+1..NS+NP+NL the lecturers; anything after that (blank line, parameter block) is ignored.  In a 2-agent file every
+ #      hospital is one project offered by its own lecturer with the same lower / upper quota and target = upper quota.
+ M + '_import_from_file': dict(
+    params={'filename': ('str', 'filename'), 'instance_options': ('dict', 'Instance_options', {'NUMAGENTS': 'int', 'TWOPL': 'bool', 'PC': 'bool'})},
+    locals={'project_lecturers': ('list', 'int')},
+    defs=IMPORT_DEFS,
+    requires=IMPORT_REQUIRES,
+    call_ghost={'_create_pairs_row': {'ties': 'line_ties(index)'}, '_create_student_ranks': {'ties': 'line_ties(index)'}},
+    asserts={'after_call:_create_student_ranks': [('keys-of-this-line-in-listing-form', 'forall(a, forall(b, map_has(result, a, b) == (a == ite(NA() == 2, index - NS(), index - NS() - NP()) and listed(a, b))))')],
+             'loop0.exit': [('all-sections-read', 'n_st(file_len()) == NS() and n_pr(file_len()) == NP() and n_le(file_len()) == NL()'),
+                            ('rank-keys-at-the-end', 'forall(a, forall(b, map_has(lecturer_student_ranks, a, b) == (TW() and 1 <= a and a <= NL() and listed(a, b)), map_has(lecturer_student_ranks, a, b)))')],
+             'after_call:_set_lecturers': [('every-pair-has-the-lecturer-of-its-project-in-range', "forall(i, 0, NS(), forall(c, 0, len(model.pairs[i]), has(model.pairs[i][c], 'lecturerID')"
+                  " and model.pairs[i][c].lecturerID == lect_of(model.pairs[i][c].projectID) and 1 <= model.pairs[i][c].lecturerID and model.pairs[i][c].lecturerID <= NL(), model.pairs[i][c]), model.pairs[i])"),
+                 ('every-pair-is-listed-by-its-lecturer', 'implies(TW(), forall(i, 0, NS(), forall(c, 0, len(model.pairs[i]), listed(model.pairs[i][c].lecturerID, model.pairs[i][c].studentID), model.pairs[i][c]), model.pairs[i]))'),
+                 ('every-pair-is-a-usable-object', "len(model.pairs) == NS() and forall(i, 0, NS(), forall(c, 0, len(model.pairs[i]), model.pairs[i][c] != None and has(model.pairs[i][c], 'studentID'), model.pairs[i][c]), model.pairs[i])"),
+                 ('every-pair-has-a-rank-entry', 'implies(TW(), forall(i, 0, NS(), forall(c, 0, len(model.pairs[i]), map_has(lecturer_student_ranks, model.pairs[i][c].lecturerID, model.pairs[i][c].studentID), model.pairs[i][c]), model.pairs[i]))')]},
+    loops={0: dict(invariant=[
+        ('counts-after-the-header', 'implies(_k >= 1, model.num_students == NS() and model.num_projects == NP() and model.num_lecturers == NL())'),
+        ('one-row-per-student-line-so-far', 'len(model.pairs) == n_st(_k)'),
+        ('rows-as-written', 'forall(i, 0, n_st(_k), row_as_written(i))'),
+        ('no-lecturer-rank-yet', "forall(i, 0, n_st(_k), forall(c, 0, len(model.pairs[i]), not has(model.pairs[i][c], 'rank_lecturer')))"),
+        ('project-quotas-so-far', 'len(model.proj_lower_quotas) == n_pr(_k) and len(model.proj_upper_quotas) == n_pr(_k) and len(project_lecturers) == n_pr(_k)'),
+        ('lecturer-quotas-so-far', 'len(model.lec_lower_quotas) == n_le(_k) and len(model.lec_targets) == n_le(_k) and len(model.lec_upper_quotas) == n_le(_k)'),
+        ('rank-keys-so-far', 'forall(a, forall(b, map_has(lecturer_student_ranks, a, b) == (TW() and 1 <= a and a <= n_le(_k) and listed(a, b))))'),
+        ('project-values', 'forall(j, 0, n_pr(_k), model.proj_lower_quotas[j] == value(line_toks(pl(j))[1]) and model.proj_upper_quotas[j] == value(line_toks(pl(j))[2])'
+                           ' and project_lecturers[j] == ite(NA() == 2, j + 1, value(line_toks(pl(j))[3])))'),
+        ('lecturer-values', 'forall(k, 0, n_le(_k), ite(NA() == 2, model.lec_lower_quotas[k] == value(line_toks(pl(k))[1]) and model.lec_targets[k] == value(line_toks(pl(k))[2]) and model.lec_upper_quotas[k] == value(line_toks(pl(k))[2]),'
+                            ' model.lec_lower_quotas[k] == value(line_toks(ll(k))[1]) and model.lec_targets[k] == value(line_toks(ll(k))[2]) and model.lec_upper_quotas[k] == value(line_toks(ll(k))[3])))')])},
+    returns=('obj', 'Model'),
+    ensures=[('counts-from-the-header', 'result.num_students == NS() and result.num_projects == NP() and result.num_lecturers == NL()'),
+             ('one-row-per-student', 'len(result.pairs) == NS()'),
+             ('rows-in-list-order-with-the-written-numbers-and-dense-tie-ranks', 'forall(i, 0, NS(), row_as_written_of(result, i))'),
+             ('project-quotas-and-lecturers-as-written', 'len(result.proj_lower_quotas) == NP() and len(result.proj_upper_quotas) == NP() and len(result.proj_lecturers) == NP()'
+              ' and forall(j, 0, NP(), result.proj_lower_quotas[j] == lq_of(j) and result.proj_upper_quotas[j] == uq_of(j) and result.proj_lecturers[j] == ite(NA() == 2, j + 1, value(line_toks(pl(j))[3])))'),
+             ('lecturer-quotas-as-written-or-embedded', 'len(result.lec_lower_quotas) == NL() and len(result.lec_targets) == NL() and len(result.lec_upper_quotas) == NL()'
+              ' and forall(k, 0, NL(), ite(NA() == 2, result.lec_lower_quotas[k] == lq_of(k) and result.lec_targets[k] == uq_of(k) and result.lec_upper_quotas[k] == uq_of(k),'
+              ' result.lec_lower_quotas[k] == value(line_toks(ll(k))[1]) and result.lec_targets[k] == value(line_toks(ll(k))[2]) and result.lec_upper_quotas[k] == value(line_toks(ll(k))[3])))'),
+             ('every-pair-gets-the-lecturer-of-its-project', "forall(i, 0, NS(), forall(c, 0, len(result.pairs[i]), has(result.pairs[i][c], 'lecturerID') and result.pairs[i][c].lecturerID == lect_of(result.pairs[i][c].projectID)"
+              " and result.pairs[i][c].lecturer_index == result.pairs[i][c].lecturerID - 1))"),
+             ('the-model-is-well-formed', 'sizes_ok(result) and pairs_ok(result)'),
+             ('lecturer-ranks-exactly-with-second-side-lists', "forall(i, 0, NS(), forall(c, 0, len(result.pairs[i]), has(result.pairs[i][c], 'rank_lecturer') == TW()))")]),
+ # the complete reader: _import_from_file, then the three derived-list builders (their postconditions are import_model's)
+ M + 'import_model': dict(
+    params={'filename': ('str', 'filename'), 'instance_options': ('dict', 'Instance_options', {'NUMAGENTS': 'int', 'TWOPL': 'bool', 'PC': 'bool'})},
+    theory=['listsets'],
+    requires=IMPORT_REQUIRES, defs=IMPORT_DEFS,
+    returns=('obj', 'Model'),
+    ensures=[('the-model-is-well-formed', 'sizes_ok(result) and pairs_ok(result)'),
+             ('one-derived-list-per-project-lecturer-and-rank', 'len(result.project_lists) == result.num_projects and len(result.lecturer_lists) == result.num_lecturers and is_max_rank(result, len(result.rank_lists))')]),
 }
